@@ -139,6 +139,7 @@ func checkPair(c caseT, indices []uint32, allIndices bool, withSidecar bool) {
 		for idx := uint32(0); idx < want; idx++ {
 			l := transfer.VerifChunkSizeForIndex(c.Size, c.Chunk, idx)
 			off := int64(idx) * int64(c.Chunk) // the receiver's write offset / the sender's read offset
+			checkOffsetExprs(c, idx, off)
 			if off != sum {
 				violate("chunkSizeForIndex", "gap-or-overlap", c, fmt.Sprintf("size=%d chunk=%d idx=%d: offset %d but previous chunks cover %d bytes", c.Size, c.Chunk, idx, off, sum))
 				break
@@ -162,6 +163,9 @@ func checkPair(c caseT, indices []uint32, allIndices bool, withSidecar bool) {
 		return
 	}
 	for _, idx := range indices {
+		if idx < want {
+			checkOffsetExprs(c, idx, int64(idx)*int64(c.Chunk))
+		}
 		l := transfer.VerifChunkSizeForIndex(c.Size, c.Chunk, idx)
 		var wantLen uint32
 		off := uint64(idx) * uint64(c.Chunk)
@@ -175,6 +179,16 @@ func checkPair(c caseT, indices []uint32, allIndices bool, withSidecar bool) {
 		}
 		if l != wantLen {
 			violate("chunkSizeForIndex", "length", c, fmt.Sprintf("size=%d chunk=%d idx=%d (count %d): length %d, want %d", c.Size, c.Chunk, idx, want, l, wantLen))
+		}
+	}
+}
+
+// checkOffsetExprs: every inline "offset of chunk idx" expression of the source (sliced
+// verbatim at check time) must give the offset the tiling needs.
+func checkOffsetExprs(c caseT, idx uint32, want int64) {
+	for _, e := range transfer.VerifOffsetExprs {
+		if g := e.F(idx, c.Chunk); g != want {
+			violate(e.Where, "offset", c, fmt.Sprintf("%s: %s = %d for index=%d chunk=%d (size %d), the tiling needs %d", e.Where, e.Text, g, idx, c.Chunk, c.Size, want))
 		}
 	}
 }
@@ -196,6 +210,16 @@ func main() {
 			w = append(w, e.Where+": "+e.Text)
 		}
 		res.Extra["inline_count_expressions_found"] = w
+	}
+	{
+		w := []string{}
+		for _, e := range transfer.VerifOffsetExprs {
+			w = append(w, e.Where+": "+e.Text)
+		}
+		res.Extra["inline_offset_expressions_found"] = w
+		if len(w) < 4 {
+			res.InfraError("only %d inline offset expressions found in internal/transfer (sender read, receiver write, late chunk, hash): the slicing rule no longer matches the source", len(w))
+		}
 	}
 	if vlib.F.Replay != "" {
 		replay()
@@ -272,5 +296,16 @@ func replay() {
 	}
 	c := art.Violation.Replay
 	cnt, _ := refCount(c.Size, c.Chunk)
-	checkPair(c, []uint32{0, uint32(cnt)}, cnt <= 1<<16, cnt <= 1<<22)
+	last := uint32(cnt)
+	idx := []uint32{0, 1, last / 2, last}
+	if last > 0 {
+		idx = append(idx, last-1)
+	}
+	if last > 1 {
+		idx = append(idx, last-2)
+	}
+	if last < 0xFFFFFFFF {
+		idx = append(idx, last+1)
+	}
+	checkPair(c, idx, cnt <= 1<<16, cnt <= 1<<22)
 }
